@@ -295,13 +295,17 @@ func EnvPoint(site string, lazy bool, notBefore int64) {
 func Lock(site string, m *sync.Mutex) {
 	s := active()
 	if s == nil {
+		if ds := cur.Load(); ds != nil && ds.draining.Load() {
+			drainLock(m)
+			return
+		}
 		perturb(site)
 		m.Lock()
 		return
 	}
 	p := s.park(site, m, 0, false, 0)
 	if p == nil || s.draining.Load() {
-		m.Lock()
+		drainLock(m)
 		return
 	}
 	if !m.TryLock() {
@@ -311,6 +315,20 @@ func Lock(site string, m *sync.Mutex) {
 	s.mu.Lock()
 	s.held[m] = p.g.Name
 	s.mu.Unlock()
+}
+
+// drainLock is Lock while a finished simulation is being torn down. A goroutine blocked in
+// sync.Mutex.Lock is not durably blocked for synctest, so a mutex that is never released (an engine
+// deadlock the oracles have already recorded) would keep the bubble from ever ending. The lock is
+// polled on the fake clock instead and, if it never becomes free, the goroutine blocks for good.
+func drainLock(m *sync.Mutex) {
+	for i := 0; i < 2000; i++ {
+		if m.TryLock() {
+			return
+		}
+		time.Sleep(time.Millisecond)
+	}
+	select {}
 }
 
 // Unlock is a modelled sync.Mutex.Unlock.
